@@ -19,7 +19,7 @@ RULE = (
     "prefix table has slots} x slot {s, p, o, g, nested s/p/o of a "
     "quoted triple} x TripleStream / QuadStream / GraphStream x generic / rdflib term encoder, driven statement by "
     "statement in a catch-and-continue loop (frames written as they appear, final flush of the flow) x what the caller does "
-    "after a rejection {carries on, calls enroll() again as every integration helper does, hands the rest to the "
+    "how a statement is handed over {tuple, one-shot iterator} x what the caller does after a rejection {carries on, calls enroll() again as every integration helper does, hands the rest to the "
     "integration's stream_frames(stream, ...) with the same stream}. accepted := the "
     "statements whose call returned. Oracle: the reference decoder R (unclosed graph at end allowed; a graph start while a "
     "graph is open closes it) decodes all bytes written to exactly the accepted statements in order - which is satisfied "
@@ -67,6 +67,8 @@ def poison_case(draw):
         preset = draw(gen.preset_for(stmts))
     return {"integration": integration, "phys": phys, "statements": stmts, "poisons": poisons, "preset": preset,
             "after_failure": draw(st.sampled_from(["carry_on", "carry_on", "enroll", "glue"])),
+            # triple() / quad() take any iterable of terms: a tuple, or a one-shot iterator
+            "as_iterator": draw(st.booleans()),
             "frame_size": draw(st.sampled_from([1, 2, 3, 5, 250])), "logical": 1 if phys == "TRIPLES" else 2,
             "delimited": True, "params": {"generalized": True, "rdf_star": True, "stream_name": ""}}
 
@@ -181,6 +183,8 @@ def run_case(case):
             arg = sabotage(objs, p, integration, s) if p and p["cause"] != "bad_graph_id" else objs
             if p and p["cause"] == "bad_graph_id":
                 arg = sabotage(objs, {**p, "cause": "unsupported", "slot": "g"}, integration, s)
+            if case.get("as_iterator") and isinstance(arg, tuple):
+                arg = iter(arg)
             try:
                 frame = stream.triple(arg) if phys == "TRIPLES" else stream.quad(arg)
             except Exception:  # noqa: BLE001
@@ -242,7 +246,7 @@ def run_case(case):
                     if isinstance(q, tuple) and len(q) < 4:
                         tri = q[:2]
                 pulled.append(k)
-                yield tri
+                yield iter(tri) if case.get("as_iterator") and isinstance(tri, tuple) else tri
 
         try:
             for frame in stream.graph(gid, triples()):
@@ -345,8 +349,8 @@ def enumerate_cases():
                             continue
                         for nested in ("spo" if cause == "nested_unsupported" else "s"):
                             preset = [8, 4, 0] if cause == "typed_literal_disabled" else [8, 4, 4]
-                            for after in ("carry_on", "enroll", "glue"):
-                                yield {"integration": integration, "phys": phys, "statements": stmts,
+                            for after, as_it in (("carry_on", False), ("carry_on", True), ("enroll", False), ("glue", True)):
+                                yield {"as_iterator": as_it,"integration": integration, "phys": phys, "statements": stmts,
                                        "poisons": [{"pos": pos, "cause": cause, "slot": slot, "nested_slot": nested}],
                                        "preset": preset, "after_failure": after, "frame_size": 3,
                                        "logical": 1 if phys == "TRIPLES" else 2, "delimited": True,
